@@ -36,6 +36,7 @@ type env struct {
 	producers []*producer
 	sched     [][]string     // batches of completed tasks (node keys) as taskManager.wait returned them (C03 trace hook), first run
 	scheds    [][][]string   // the same for every task manager of the case, in order of first appearance (nested runs, resumed runs)
+	reruns    map[int]int    // node id -> executions so far of a node with Rerun > 0
 	collected map[string]int // node key -> tasks collected by any run loop of the case (resumed runs included)
 	resumes   int
 	segs      [][][]string // the schedule of every call of the top-level runnable (the first run and every resumed run), in order
@@ -43,7 +44,7 @@ type env struct {
 	pipes     []func()   // drains every Pipe the harness created (used after an aborted run)
 }
 
-func newEnv(c *Case) *env { return &env{c: c, brLog: map[[2]int][][]int{}} }
+func newEnv(c *Case) *env { return &env{c: c, brLog: map[[2]int][][]int{}, reruns: map[int]int{}} }
 
 func (e *env) exec(idx int) {
 	e.mu.Lock()
@@ -203,6 +204,17 @@ func keyedLambda[I, O any](e *env, idx int) *compose.Lambda {
 	case "coll":
 		return compose.CollectableLambda(func(ctx context.Context, in *schema.StreamReader[I]) (O, error) {
 			e.exec(idx)
+			if spec.Rerun > 0 {
+				e.mu.Lock()
+				k := e.reruns[idx]
+				e.reruns[idx]++
+				e.mu.Unlock()
+				if k < spec.Rerun {
+					in.Close()
+					var o O
+					return o, compose.InterruptAndRerun
+				}
+			}
 			if err := readPrefix(in, spec.Prefix); err != nil {
 				var o O
 				return o, err
@@ -283,10 +295,28 @@ func lambdaOf(e *env, idx int) *compose.Lambda {
 			return nil, errNodeFailed
 		})
 	}
+	// rerun tells whether this execution asks for an interrupt-and-rerun (it closes its input first)
+	rerun := func(in interface{ Close() }) bool {
+		if spec.Rerun == 0 {
+			return false
+		}
+		e.mu.Lock()
+		k := e.reruns[idx]
+		e.reruns[idx]++
+		e.mu.Unlock()
+		if k < spec.Rerun {
+			in.Close()
+			return true
+		}
+		return false
+	}
 	switch spec.Kind {
 	case "xform":
 		return compose.TransformableLambda(func(ctx context.Context, in *schema.StreamReader[M]) (*schema.StreamReader[M], error) {
 			e.exec(idx)
+			if rerun(in) {
+				return nil, compose.InterruptAndRerun
+			}
 			sr, sw := schema.Pipe[M](spec.Cap)
 			e.addPipe(drain(sr))
 			p := e.newProducer(name)
@@ -296,11 +326,17 @@ func lambdaOf(e *env, idx int) *compose.Lambda {
 	case "conv":
 		return compose.TransformableLambda(func(ctx context.Context, in *schema.StreamReader[M]) (*schema.StreamReader[M], error) {
 			e.exec(idx)
+			if rerun(in) {
+				return nil, compose.InterruptAndRerun
+			}
 			return schema.StreamReaderWithConvert(in, func(m M) (M, error) { return m, nil }), nil
 		})
 	case "ident":
 		return compose.TransformableLambda(func(ctx context.Context, in *schema.StreamReader[M]) (*schema.StreamReader[M], error) {
 			e.exec(idx)
+			if rerun(in) {
+				return nil, compose.InterruptAndRerun
+			}
 			return in, nil
 		})
 	}
@@ -434,8 +470,29 @@ func (s *memStore) Set(_ context.Context, id string, b []byte) error {
 	return nil
 }
 
+// extraInterrupts: the case has interrupts raised by a node or inside a nested graph (not in the model).
+func extraInterrupts(c *Case) bool {
+	for i := range c.Nodes {
+		n := &c.Nodes[i]
+		if n.Rerun > 0 {
+			return true
+		}
+		if n.Sub != nil {
+			if len(n.Sub.IntBefore)+len(n.Sub.IntAfter) > 0 {
+				return true
+			}
+			for j := range n.Sub.Nodes {
+				if n.Sub.Nodes[j].Rerun > 0 {
+					return true
+				}
+			}
+		}
+	}
+	return false
+}
+
 func interruptOpts(c *Case) []compose.GraphCompileOption {
-	if len(c.IntBefore)+len(c.IntAfter) == 0 {
+	if len(c.IntBefore)+len(c.IntAfter) == 0 && !extraInterrupts(c) {
 		return nil
 	}
 	names := func(xs []int) []string {
@@ -594,10 +651,24 @@ func buildSub(e *env, i int) (*compose.Graph[M, M], compose.GraphAddNodeOpt, err
 	if err != nil {
 		return nil, nil, err
 	}
-	if sub.Mode == "dag" {
-		return g, compose.WithGraphCompileOptions(compose.WithNodeTriggerMode(compose.AllPredecessor)), nil
+	var iopts []compose.GraphCompileOption
+	names := func(xs []int) []string {
+		var out []string
+		for _, x := range xs {
+			out = append(out, nodeName(idOf(x)))
+		}
+		return out
 	}
-	return g, compose.WithGraphCompileOptions(compose.WithNodeTriggerMode(compose.AnyPredecessor), compose.WithMaxRunSteps(300)), nil
+	if len(sub.IntBefore) > 0 {
+		iopts = append(iopts, compose.WithInterruptBeforeNodes(names(sub.IntBefore)))
+	}
+	if len(sub.IntAfter) > 0 {
+		iopts = append(iopts, compose.WithInterruptAfterNodes(names(sub.IntAfter)))
+	}
+	if sub.Mode == "dag" {
+		return g, compose.WithGraphCompileOptions(append(iopts, compose.WithNodeTriggerMode(compose.AllPredecessor))...), nil
+	}
+	return g, compose.WithGraphCompileOptions(append(iopts, compose.WithNodeTriggerMode(compose.AnyPredecessor), compose.WithMaxRunSteps(300))...), nil
 }
 
 func build(e *env) (compose.Runnable[M, M], error) {
@@ -769,7 +840,7 @@ func callAndRead(e *env, r compose.Runnable[M, M]) runOut {
 	}
 	var sr *schema.StreamReader[M]
 	var err error
-	interruptible := len(c.IntBefore)+len(c.IntAfter) > 0
+	interruptible := len(c.IntBefore)+len(c.IntAfter) > 0 || extraInterrupts(c)
 	if interruptible {
 		opts = append(opts, compose.WithCheckPointID("cp"))
 	}
